@@ -20,8 +20,21 @@ theorem MSComb.next_false_done (s s' : MSComb) (h : MSComb.next s = .ok (s', fal
     | ok r =>
       obtain ⟨s1, b⟩ := r
       simp only [h0, Outcome.bind_ok] at h
-      cases b <;> simp at h
-      rw [← h]
+      cases b with
+      | false =>
+        simp at h
+        rw [← h]
+      | true =>
+        simp only [if_true] at h
+        cases hf : MSComb.freqBuf s1 with
+        | ok fr =>
+          simp only [hf, Outcome.bind_ok] at h
+          cases hsc : MSComb.scatter (s1.state.getD []) s1.all 0 0 fr with
+          | ok fr2 => simp [hsc] at h
+          | panic => simp [hsc] at h
+          | outOfFuel => simp [hsc] at h
+        | panic => simp [hf] at h
+        | outOfFuel => simp [hf] at h
     | panic => simp [h0] at h
     | outOfFuel => simp [h0] at h
 
